@@ -29,7 +29,7 @@ def reset_line(ln, st, prog):
     return "Reset %d %d %d %s %d %s" % (ln, st, len(pp), " ".join("%d %d" % x for x in pp), len(cp), " ".join(map(str, cp)))
 
 
-def run_rb(run, exe, trace_mod="TraceRingBuf", trace_cfg="TraceRingBuf.cfg", cfgs=None, nrandom=None, tagp=""):
+def run_rb(run, exe, trace_mod="TraceRingBuf", trace_cfg="TraceRingBuf.cfg", cfgs=None, nrandom=None, tagp="", validate=True):
     traces = []
     for (n, ln, st, prog) in (cfgs or CFGS):
         for disc in ("t", "i"):
@@ -54,13 +54,15 @@ def run_rb(run, exe, trace_mod="TraceRingBuf", trace_cfg="TraceRingBuf.cfg", cfg
         for t in traces:
             with open(t, "rb") as f:
                 shutil.copyfileobj(f, out)
-    check_trace(run, "edge-cover", trace_mod, trace_cfg, allp)
+    if validate:
+        check_trace(run, "edge-cover", trace_mod, trace_cfg, allp)
     sample_trace(run, traces[0], 10)
     n = nrandom or (6000 if run.thorough() else 1000)
     gen = "Gen %d %d 0\nGen %d %d 1\n" % (run.seed * 10 + 1, n, run.seed * 10 + 2, n)
     gen += "Late 2 %d\nLate 3 2600\nLate 5 700\n" % (70000 if run.thorough() else 4200)   # long-blocked ringbuf_putchar
     tr = exec_script(run, exe, [], gen, run.path(tagp + "random.ndjson"), "random-schedules")
-    check_trace(run, "random-schedules", trace_mod, trace_cfg, tr)
+    if validate:
+        check_trace(run, "random-schedules", trace_mod, trace_cfg, tr)
     return [allp, tr]
 
 
